@@ -101,7 +101,7 @@ def nno_unit(conn):
         ],
         contract=r"""
 __CPROVER_requires(__CPROVER_is_fresh(selected_offsets, OFFCAP * 16))
-__CPROVER_assigns(__CPROVER_object_whole(selected_offsets))
+__CPROVER_assigns(__CPROVER_object_upto(selected_offsets, OFFCAP * 16))
 /* the possible moves (0 = not possible) combined along the steps of the connectivity, as a multiset */
 __CPROVER_ensures(%s)
 """ % post)
@@ -189,6 +189,7 @@ void h_count(void)
 # ghost node (GR, GC) of an nrows x ncols grid, both >= 2
 GEO = r"""
 size_t GR, GC;   /* an arbitrary node */
+_Bool SA[8]; ptrdiff_t SR[8], SC[8];   /* its geometric spec list: step j admissible, target row - GR, target col - GC */
 #define NROWS m_shape0
 #define NCOLS m_shape1
 #define ROWCLS(r) ((r) == 0 ? 0 : ((r) == NROWS - 1 ? 2 : 1))
@@ -212,13 +213,17 @@ def _coded_return(m):
         mm = re.match(r"^this->node_neighbors_offsets\((.*)\)$", item, re.S)
         if not mm:
             raise ex.ExtractionError("build_coded_neighbors_offsets: unexpected entry %r" % item)
-        out.append("coded_n[%d] = NNO(%s, coded_off + %d);" % (k, mm.group(1), 2 * OFFCAP * k))
-    return "\n".join(out) + "\nreturn;"
+        # the 9 entries are independent, side-effect-free expressions: each group compiles the entry of its own location code
+        out.append("#if CODE_K == %d\ncoded_n[%d] = NNO(%s, coded_off + %d);\n#endif" % (k, k, mm.group(1), 2 * OFFCAP * k))
+    return "\n" + "\n".join(out) + "\nreturn;"
 
 
 def coded_unit(conn):
-    spec = [("ADM_R(GR, %d) && ADM_C(GC, %d)" % (dr, dc),
-             ("(ptrdiff_t) TGT_R(GR, %d) - (ptrdiff_t) GR" % dr, "(ptrdiff_t) TGT_C(GC, %d) - (ptrdiff_t) GC" % dc)) for dr, dc in STEPS[conn]]
+    # the geometric spec list of the ghost node is held in harness-owned ghost arrays, defined (not constrained) by SPEC_DEF
+    spec = [("SA[%d]" % j, ("SR[%d]" % j, "SC[%d]" % j)) for j in range(len(STEPS[conn]))]
+    spec_def = " && ".join("SA[%d] == (ADM_R(GR, %d) && ADM_C(GC, %d)) && SR[%d] == (ptrdiff_t) TGT_R(GR, %d) - (ptrdiff_t) GR "
+                           "&& SC[%d] == (ptrdiff_t) TGT_C(GC, %d) - (ptrdiff_t) GC" % (j, dr, dc, j, dr, j, dc)
+                           for j, (dr, dc) in enumerate(STEPS[conn]))
     # the list of the ghost node's code
     post = multiset_eq("coded_n[CODE_K]", OFFCAP,
                        lambda i: ("coded_off[2 * OFFCAP * CODE_K + %d]" % (2 * i), "coded_off[2 * OFFCAP * CODE_K + %d]" % (2 * i + 1)), spec)
@@ -226,7 +231,7 @@ def coded_unit(conn):
         name="coded_offsets_" + conn, file=RG_H,
         anchor=r"auto raster_grid<S, RC, C>::build_coded_neighbors_offsets\(\) -> coded_noffsets_type",
         sig="void coded_offsets_%s(size_t m_shape0, size_t m_shape1, const struct rbs *bs, ptrdiff_t *coded_off, size_t *coded_n)" % conn,
-        pre=GEO + "#define NNO nno_%s\n" % conn,
+        pre=GEO + "#define NNO nno_%s\n#define SPEC_DEF (%s)\n" % (conn, spec_def),
         rules=[
             V(r"\bauto (\w+) = static_cast<std::ptrdiff_t>", r"ptrdiff_t \1 = static_cast<std::ptrdiff_t>"),
             V(r"m_shape\[([01])\]", r"m_shape\1"),
@@ -241,6 +246,7 @@ __CPROVER_requires(__CPROVER_is_fresh(bs, sizeof(*bs)) && BS_SYM(bs))
 __CPROVER_requires(__CPROVER_is_fresh(coded_off, 9 * OFFCAP * 16) && __CPROVER_is_fresh(coded_n, 9 * 8))
 __CPROVER_requires(GR < m_shape0 && GC < m_shape1)
 __CPROVER_requires(CODE(GR, GC) == CODE_K)   /* case split over the 9 location codes: one group per code */
+__CPROVER_requires(SPEC_DEF)                 /* definition of the ghost spec list SA / SR / SC of the node (GR, GC) */
 __CPROVER_assigns(__CPROVER_object_whole(coded_off), __CPROVER_object_whole(coded_n))
 /* C07: the offset list stored for the location code of the arbitrary node (GR, GC) is, as a multiset, the list of
  * (target row - GR, target col - GC) over the admissible steps of the connectivity */
@@ -253,14 +259,16 @@ def coded_group(conn, k):
     u = coded_unit(conn)
     return Group(name="raster.coded_offsets.%s.code%d" % (conn, k), units=BASE_UNITS + [nno, u], defines=["CODE_K=%d" % k],
                  harness=ND + r"""
+ptrdiff_t nondet_ptrdiff_t(void);
 void h_coded(void)
 {
     const struct rbs *bs; ptrdiff_t *off; size_t *cn;
     GR = nondet_size_t(); GC = nondet_size_t();
+    for (int j = 0; j < 8; ++j) { SA[j] = nondet_bool(); SR[j] = nondet_ptrdiff_t(); SC[j] = nondet_ptrdiff_t(); }
     coded_offsets_%s(nondet_size_t(), nondet_size_t(), bs, off, cn);
     __CPROVER_assert(0, "canary: postcondition point reachable");
 }
-""" % conn, entry="h_coded", enforce=u.name, replace=[nno.name], timeout=600, min_obligations=10,
+""" % conn, entry="h_coded", enforce=u.name, unwindset={(nno.name, 0): len(STEPS[conn]) + 1}, timeout=600, min_obligations=10,
                  clause="%s, location code %d: for an arbitrary node with that code, the offset list of the code == multiset of (target - node) over the admissible "
                         "steps (wrap offsets +-(dim - 1) across looped borders); symbolic shape in [2, 2^20]^2, all looped combinations" % (conn, k))
 
@@ -289,6 +297,320 @@ void h_sym(void)
                         "the spec's own domain: shape in [2, 2^20]^2, symmetric looped borders, nodes inside)" % conn)
 
 
+
+# =========================================================================== 5. neighbors_indices_impl / neighbors_count_impl / ravel / unravel
+ACC = r"""
+/* const neighbors_offsets_type& : a view (data, size) of one stored offset list */
+struct offvec { const ptrdiff_t *data; size_t size; };
+static inline struct offvec fsl_offvec(const ptrdiff_t *coded_off, const size_t *coded_n, size_t code)
+{
+    __CPROVER_assert(code < 9, "location code indexes the array of 9 offset lists");
+    struct offvec v = { coded_off + 2 * OFFCAP * code, coded_n[code] };
+    return v;
+}
+size_t GIDX;   /* flat index of the ghost node */
+"""
+GRID_VOCAB = [
+    V(r"\bnodes_codes\(([^()]+)\)", r"m_nodes_codes[FSL_IDX1(\1, m_size)]"),      # accessor nodes_codes(idx) (raster_grid.hpp:864-867)
+    V(r"\bm_nodes_codes\[([^\[\]]+)\]", r"m_nodes_codes[FSL_IDX1(\1, m_size)]"),
+    V(r"\bneighbor_offsets\(", "fsl_offvec(coded_off, coded_n, "),                  # accessor neighbor_offsets(code) (803-807)
+    V(r"\bm_neighbors_count\[([^\[\]]+(?:\[[^\[\]]+\])?[^\[\]]*)\]", r"m_neighbors_count[FSL_IDX1(\1, 9)]"),
+    V(r"\bravel_idx\(", "ravel_idx(m_shape1, "),
+    V(r"m_shape\[([01])\]", r"m_shape\1"),
+]
+SLOT_A = "coded_off[2 * OFFCAP * CODE(GR, GC) + %d]"
+
+
+def indices_unit():
+    inrange = " && ".join("(%d < coded_n[CODE(GR, GC)] ==> ((ptrdiff_t) GR + %s >= 0 && (ptrdiff_t) GR + %s < (ptrdiff_t) m_shape0 "
+                          "&& (ptrdiff_t) GC + %s >= 0 && (ptrdiff_t) GC + %s < (ptrdiff_t) m_shape1))" %
+                          (i, SLOT_A % (2 * i), SLOT_A % (2 * i), SLOT_A % (2 * i + 1), SLOT_A % (2 * i + 1)) for i in range(OFFCAP))
+    post = " && ".join("(%d < coded_n[CODE(GR, GC)] ==> neighbors[%d] == (size_t) ((ptrdiff_t) GR + %s) * m_shape1 + (size_t) ((ptrdiff_t) GC + %s))" %
+                       (i, i, SLOT_A % (2 * i), SLOT_A % (2 * i + 1)) for i in range(OFFCAP))
+    return Unit(
+        name="raster_neighbors_indices_impl", file=RG_H,
+        anchor=r"inline auto raster_grid<S, RC, C>::neighbors_indices_impl\(\s*neighbors_indices_impl_type& neighbors, const size_type& idx\) const -> void",
+        sig="void raster_neighbors_indices_impl(size_t *neighbors, size_t idx, size_t m_shape0, size_t m_shape1, size_t m_size, "
+            "const uint8_t *m_nodes_codes, const ptrdiff_t *coded_off, const size_t *coded_n)",
+        pre=GEO.replace("bs->", "BS_UNUSED->") + ACC,
+        rules=GRID_VOCAB + [
+            V(r"const auto& offsets =", "const struct offvec offsets ="),
+            V(r"\boffsets\.size\(\)", "offsets.size"),
+            V(r"\boffsets\[([^\[\]]+)\]", r"(offsets.data + 2 * FSL_IDX1(\1, offsets.size))"),
+            V(r"const auto offset =", "const ptrdiff_t *offset ="),
+            # std::array::at(i) throws std::out_of_range for i >= N: kept as the obligation "no exception"
+            V(r"neighbors\.at\(([^()]+)\)", r"neighbors[FSL_IDX1(\1, NB_MAX)]"),
+        ],
+        contract=r"""
+__CPROVER_requires(2 <= m_shape0 && m_shape0 <= DIM_MAX && 2 <= m_shape1 && m_shape1 <= DIM_MAX && m_size <= ((size_t) 1 << 40))
+__CPROVER_requires(__CPROVER_is_fresh(neighbors, NB_MAX * 8) && __CPROVER_is_fresh(m_nodes_codes, m_size))
+__CPROVER_requires(__CPROVER_is_fresh(coded_off, 9 * OFFCAP * 16) && __CPROVER_is_fresh(coded_n, 9 * 8))
+/* the queried node is the ghost node (GR, GC) */
+__CPROVER_requires(GR < m_shape0 && GC < m_shape1 && idx == GR * m_shape1 + GC && idx < m_size)
+/* instances of the producers' postconditions: code table (raster.codes), offset lists (raster.coded_offsets.*: every listed
+ * offset is target - node for an in-range target; at most n_neighbors_max of them) */
+__CPROVER_requires(m_nodes_codes[idx] == CODE(GR, GC))
+__CPROVER_requires(coded_n[CODE(GR, GC)] <= NB_MAX && NB_MAX <= OFFCAP)
+__CPROVER_requires(%s)
+__CPROVER_assigns(__CPROVER_object_whole(neighbors))
+/* C07: slot i holds the row-major flat index of (GR + row offset, GC + col offset) */
+__CPROVER_ensures(%s)
+""" % (inrange, post))
+
+
+def indices_group(nbmax):
+    u = indices_unit()
+    return Group(name="raster.indices.nb%d" % nbmax, units=[base, u], defines=["NB_MAX=%d" % nbmax],
+                 harness=ND + r"""
+void h_idx(void)
+{
+    size_t *nb; const uint8_t *codes; const ptrdiff_t *off; const size_t *cn;
+    GR = nondet_size_t(); GC = nondet_size_t();
+    raster_neighbors_indices_impl(nb, nondet_size_t(), nondet_size_t(), nondet_size_t(), nondet_size_t(), codes, off, cn);
+    __CPROVER_assert(0, "canary: postcondition point reachable");
+}
+""", entry="h_idx", enforce=u.name, unwindset={(u.name, 0): OFFCAP + 1}, backend="cvc5", timeout=600, min_obligations=10,
+                 clause="neighbors_indices_impl (n_neighbors_max = %d): every produced flat index is the row-major index of (row + row offset, "
+                        "col + col offset) of the stored offset list of the node's code; no out-of-range .at(); symbolic shape in [2, 2^20]^2" % nbmax)
+
+
+def count_impl_group(conn):
+    cu = count_unit(conn)
+    table = " && ".join("m_neighbors_count[%d] == (size_t) (%s)" % (k, " + ".join("(%s ? 1 : 0)" % cls_adm(k, dr, dc).replace("bounds_status->", "bs->")
+                                                                                        for dr, dc in STEPS[conn])) for k in range(9))
+    spec_n = " + ".join("((ADM_R(GR, %d) && ADM_C(GC, %d)) ? 1 : 0)" % (dr, dc) for dr, dc in STEPS[conn])
+    u = Unit(
+        name="raster_neighbors_count_impl", file=RG_H,
+        anchor=r"inline auto raster_grid<S, RC, C>::neighbors_count_impl\(const size_type& idx\) const noexcept\s*-> size_type",
+        sig="size_t raster_neighbors_count_impl(size_t idx, size_t m_shape0, size_t m_shape1, size_t m_size, const uint8_t *m_nodes_codes, "
+            "const size_t *m_neighbors_count, const struct rbs *bs)",
+        pre=GEO + ACC, rules=GRID_VOCAB,
+        contract=r"""
+__CPROVER_requires(2 <= m_shape0 && m_shape0 <= DIM_MAX && 2 <= m_shape1 && m_shape1 <= DIM_MAX && m_size <= ((size_t) 1 << 40))
+__CPROVER_requires(__CPROVER_is_fresh(m_nodes_codes, m_size) && __CPROVER_is_fresh(m_neighbors_count, 9 * 8) && __CPROVER_is_fresh(bs, sizeof(*bs)) && BS_SYM(bs))
+__CPROVER_requires(GR < m_shape0 && GC < m_shape1 && idx < m_size)
+/* instances of the producers' postconditions: idx is the ghost node's cell of the code table (raster.codes); count table (raster.count_table.%s) */
+__CPROVER_requires(m_nodes_codes[idx] == CODE(GR, GC))
+__CPROVER_requires(%s)
+__CPROVER_assigns()
+/* C07: the count accessor == number of admissible steps at the node == length of its offset / index list */
+__CPROVER_ensures(__CPROVER_return_value == (size_t) (%s))
+""" % (conn, table, spec_n))
+    return Group(name="raster.count_impl." + conn, units=[base, u],
+                 harness=ND + r"""
+void h_cnt(void)
+{
+    const uint8_t *codes; const size_t *cnt; const struct rbs *bs;
+    GR = nondet_size_t(); GC = nondet_size_t();
+    size_t r = raster_neighbors_count_impl(nondet_size_t(), nondet_size_t(), nondet_size_t(), nondet_size_t(), codes, cnt, bs);
+    __CPROVER_assert(0, "canary: postcondition point reachable");
+}
+""", entry="h_cnt", enforce=u.name, timeout=300, min_obligations=5,
+                 clause="%s: neighbors_count_impl(idx) == number of admissible steps at the node (given the code and count tables)" % conn)
+
+
+ravel = Unit(
+    name="ravel_idx", file=RG_H,
+    anchor=r"inline auto raster_grid<S, RC, C>::ravel_idx\(const size_type& row,\s*const size_type& col\) const noexcept -> size_type",
+    sig="size_t ravel_idx(size_t m_shape1, size_t row, size_t col)",
+    rules=[V(r"m_shape\[([01])\]", r"m_shape\1")],
+    contract=r"""
+__CPROVER_requires(m_shape1 <= DIM_MAX && row < DIM_MAX && col < m_shape1)
+__CPROVER_assigns()
+__CPROVER_ensures(__CPROVER_return_value == row * m_shape1 + col)
+""")
+unravel = Unit(
+    name="unravel_idx", file=RG_H,
+    anchor=r"inline auto raster_grid<S, RC, C>::unravel_idx\(const size_type& idx\) const noexcept\s*-> raster_idx_type",
+    sig="void unravel_idx(size_t m_shape1, size_t idx, size_t *out_row, size_t *out_col)",
+    rules=[V(r"m_shape\[([01])\]", r"m_shape\1"), V(r"\bauto (\w+) = m_shape", r"size_t \1 = m_shape"),
+           R(r"return std::make_pair\(([^,()]+),\s*([^,()]+)\);", r"*out_row = \1; *out_col = \2; return;", 1)],
+    contract=r"""
+__CPROVER_requires(1 <= m_shape1 && m_shape1 <= DIM_MAX && idx <= ((size_t) 1 << 40))
+__CPROVER_requires(__CPROVER_is_fresh(out_row, 8) && __CPROVER_is_fresh(out_col, 8))
+__CPROVER_assigns(*out_row, *out_col)
+/* ravel(unravel(idx)) == idx */
+__CPROVER_ensures(*out_row * m_shape1 + *out_col == idx)
+""")
+
+
+def ravel_groups():
+    g1 = Group(name="raster.ravel", units=[base, ravel],
+               harness=ND + r"""
+void h_ravel(void)
+{
+    size_t r = ravel_idx(nondet_size_t(), nondet_size_t(), nondet_size_t());
+    __CPROVER_assert(0, "canary: postcondition point reachable");
+}
+""", entry="h_ravel", enforce="ravel_idx", backend="cvc5", timeout=120, min_obligations=1, no_checks=[],
+               clause="ravel_idx(row, col) == row * ncols + col, no overflow for shapes <= 2^20")
+    g2 = Group(name="raster.unravel", units=[base, unravel],
+               harness=ND + r"""
+void h_unravel(void)
+{
+    size_t *a, *b;
+    unravel_idx(nondet_size_t(), nondet_size_t(), a, b);
+    __CPROVER_assert(0, "canary: postcondition point reachable");
+}
+""", entry="h_unravel", enforce="unravel_idx", backend="cvc5", timeout=300, min_obligations=1,
+               clause="unravel_idx: ravel(unravel(idx)) == idx (row = idx / ncols, col = idx - row * ncols)")
+    return [g1, g2]
+
+
+# =========================================================================== 6. profile grid (1-D, linear arithmetic)
+def profile_offsets_table():
+    try:
+        src = st._src(PG_H)
+        ms = list(re.finditer(r"static constexpr std::array<std::ptrdiff_t, (\d+)> offsets\s*\{\s*\{([^{}]*)\}\s*\};", src))
+        if len(ms) != 1:
+            raise ex.ExtractionError("profile_grid::offsets: %d definitions" % len(ms))
+        vals = [v.strip() for v in ms[0].group(2).split(",")]
+        if len(vals) != int(ms[0].group(1)) or not all(re.match(r"^-?\d+$", v) for v in vals):
+            raise ex.ExtractionError("profile_grid::offsets: cannot parse %r" % ms[0].group(2))
+        return "static const ptrdiff_t offsets[%d] = { %s }; /* profile_grid::offsets (class text) */\n#define PROFILE_N_OFFSETS %d\n" % (
+            len(vals), ", ".join(vals), len(vals))
+    except (ex.ExtractionError, OSError) as e:
+        return "#error extraction: %s\n" % str(e).replace("\n", " ")
+
+
+PGEO = r"""
+size_t GI1;   /* an arbitrary node of the profile */
+#define PCODE(i) ((i) == 0 ? 0 : ((i) == m_size - 1 ? 2 : 1))
+#define PADM(i, d) ((d) < 0 ? ((i) > 0 || bs->left == NS_looped) : ((i) < m_size - 1 || bs->right == NS_looped))
+#define PTGT(i, d) ((d) < 0 ? ((i) > 0 ? (i) - 1 : m_size - 1) : ((i) < m_size - 1 ? (i) + 1 : 0))
+#define PBS_SYM(b) (((b)->left == NS_looped) == ((b)->right == NS_looped))
+#ifndef FSL_SET3
+#define FSL_SET3(a, v0, v1, v2) { (a)[0] = (v0); (a)[1] = (v1); (a)[2] = (v2); }
+#endif
+"""
+PROFILE_VOCAB = [
+    V(r"m_bounds_status\.is_horizontal_looped\(\)", "pbs_is_horizontal_looped(bs)"),
+    V(r"m_bounds_status\.(left|right)\b", r"bs->\1"),
+    V(r"\bgcode\(([^()]+)\)", r"gcode(m_gcode_idx, m_size, \1)"),
+    V(r"detail::add_offset\(", "add_offset("),
+    V(r"\boffsets\[([^\[\]]+)\]", r"offsets[FSL_IDX1(\1, PROFILE_N_OFFSETS)]"),
+    V(r"\bm_gcode_idx\[([^\[\]]+)\]", r"m_gcode_idx[FSL_IDX1(\1, m_size)]"),
+    V(r"\bm_neighbors_count\[([^\[\]]+(?:\([^()]*\))?[^\[\]]*)\]", r"m_neighbors_count[FSL_IDX1(\1, 3)]"),
+    V(r"\bneighbors\[([^\[\]]+)\]", r"neighbors[FSL_IDX1(\1, 2)]"),
+]
+add_offset = Unit(name="add_offset", file=BASE_H, anchor=r"inline std::size_t add_offset\(std::size_t idx, std::ptrdiff_t offset\)",
+                  sig="static inline size_t add_offset(size_t idx, ptrdiff_t offset)", pre=PGEO)
+gcode = Unit(name="gcode", file=PG_H, anchor=r"auto profile_grid<S, C>::gcode\(const size_type& idx\) const -> code_type",
+             sig="static inline uint8_t gcode(const uint8_t *m_gcode_idx, size_t m_size, size_t idx)", rules=PROFILE_VOCAB)
+PCODE_TABLE = "m_gcode_idx[GI1] == PCODE(GI1)"
+PCOUNT_TABLE = " && ".join("m_neighbors_count[%d] == (size_t) (%s)" % (k, " + ".join(
+    "(%s ? 1 : 0)" % ("bs->left == NS_looped" if (d == -1 and k == 0) else "bs->right == NS_looped" if (d == 1 and k == 2) else "1") for d in (-1, 1)))
+    for k in range(3))
+P_REQ = r"""
+__CPROVER_requires(2 <= m_size && m_size <= ((size_t) 1 << 40) && __CPROVER_is_fresh(bs, sizeof(*bs)) && PBS_SYM(bs))
+"""
+build_gcode = Unit(
+    name="build_gcode", file=PG_H, anchor=r"void profile_grid<S, C>::build_gcode\(\)",
+    sig="void build_gcode(uint8_t *m_gcode_idx, size_t m_size)",
+    rules=[V(r"m_gcode_idx\.resize\(\{ m_size \}\);", "/* resize({ m_size }): storage of m_size cells provided by the caller */"),
+           V(r"m_gcode_idx\.fill\(([^()]+)\);", r"fsl_fill_u8(m_gcode_idx, m_size, \1);")] + PROFILE_VOCAB,
+    contract=r"""
+__CPROVER_requires(2 <= m_size && m_size <= ((size_t) 1 << 40) && __CPROVER_is_fresh(m_gcode_idx, m_size) && GI1 < m_size && GI == GI1)
+__CPROVER_assigns(__CPROVER_object_whole(m_gcode_idx))
+__CPROVER_ensures(m_gcode_idx[GI1] == PCODE(GI1))   /* 0 first node, 2 last node, 1 inside */
+""")
+
+
+def _set3(m):
+    vals = [x.strip() for x in m.group(1).split(",")]
+    if len(vals) != 3 or not all(re.match(r"^\d+$", v) for v in vals):
+        raise ex.ExtractionError("profile build_neighbors_count: expected 3 integer literals, got %r" % m.group(1))
+    return "FSL_SET3(m_neighbors_count, %s);" % ", ".join(vals)
+
+
+p_build_count = Unit(
+    name="profile_build_neighbors_count", file=PG_H, anchor=r"void profile_grid<S, C>::build_neighbors_count\(\)",
+    sig="void profile_build_neighbors_count(size_t *m_neighbors_count, size_t m_size, const struct pbs *bs)",
+    rules=[V(r"m_neighbors_count = std::array<size_type, 3>\(\{([^{}]*)\}\);", _set3)] + PROFILE_VOCAB,
+    contract=P_REQ + r"""
+__CPROVER_requires(__CPROVER_is_fresh(m_neighbors_count, 3 * 8))
+__CPROVER_assigns(__CPROVER_object_whole(m_neighbors_count))
+__CPROVER_ensures(%s)   /* per location code: number of admissible steps */
+""" % PCOUNT_TABLE)
+p_count_impl = Unit(
+    name="profile_neighbors_count_impl", file=PG_H,
+    anchor=r"inline auto profile_grid<S, C>::neighbors_count_impl\(const size_type& idx\) const noexcept\s*-> size_type",
+    sig="size_t profile_neighbors_count_impl(size_t idx, const uint8_t *m_gcode_idx, const size_t *m_neighbors_count, size_t m_size, const struct pbs *bs)",
+    rules=PROFILE_VOCAB,
+    contract=P_REQ + r"""
+__CPROVER_requires(__CPROVER_is_fresh(m_gcode_idx, m_size) && __CPROVER_is_fresh(m_neighbors_count, 3 * 8) && idx < m_size && idx == GI1)
+__CPROVER_requires(%s && %s)   /* producers: profile.build_gcode, profile.build_count */
+__CPROVER_assigns()
+__CPROVER_ensures(__CPROVER_return_value == (size_t) ((PADM(idx, -1) ? 1 : 0) + (PADM(idx, 1) ? 1 : 0)))
+""" % (PCODE_TABLE, PCOUNT_TABLE))
+P_SPEC = [("PADM(idx, -1)", ("PTGT(idx, -1)",)), ("PADM(idx, 1)", ("PTGT(idx, 1)",))]
+p_indices = Unit(
+    name="profile_neighbors_indices_impl", file=PG_H,
+    anchor=r"inline auto profile_grid<S, C>::neighbors_indices_impl\(neighbors_indices_impl_type& neighbors,\s*const size_type& idx\) const -> void",
+    sig="void profile_neighbors_indices_impl(size_t *neighbors, size_t idx, size_t m_size, const struct pbs *bs)",
+    rules=PROFILE_VOCAB,
+    contract=P_REQ + r"""
+__CPROVER_requires(__CPROVER_is_fresh(neighbors, 2 * 8) && idx < m_size)
+__CPROVER_assigns(__CPROVER_object_whole(neighbors))
+/* C07 on a profile: the first N slots (N = number of admissible steps = neighbors_count_impl(idx)) hold, as a multiset, the
+ * targets (idx -+ 1) mod size of the admissible steps; all < size */
+__CPROVER_ensures(%s)
+__CPROVER_ensures((0 < (PADM(idx, -1) ? 1 : 0) + (PADM(idx, 1) ? 1 : 0) ==> neighbors[0] < m_size) && (1 < (PADM(idx, -1) ? 1 : 0) + (PADM(idx, 1) ? 1 : 0) ==> neighbors[1] < m_size))
+""" % multiset_eq("(size_t) ((PADM(idx, -1) ? 1 : 0) + (PADM(idx, 1) ? 1 : 0))", 2, lambda i: ("neighbors[%d]" % i,), P_SPEC))
+
+
+def profile_groups():
+    pre = st._PRE
+    add_offset.pre = PGEO + profile_offsets_table()
+    common = [pre, st.pbs_is_hl, add_offset, gcode]
+    hp = ND + r"""
+void h_%s(void)
+{
+    uint8_t *gc; size_t *cnt; size_t *nb; const struct pbs *bs; const uint8_t *cgc; const size_t *ccnt;
+    GI = nondet_size_t(); GI1 = nondet_size_t();
+    %s;
+    __CPROVER_assert(0, "canary: postcondition point reachable");
+}
+"""
+    return [
+        Group(name="profile.build_gcode", units=common + [build_gcode], harness=hp % ("build_gcode", "build_gcode(gc, nondet_size_t())"),
+              entry="h_build_gcode", enforce="build_gcode", replace=["fsl_fill_u8"], timeout=120, min_obligations=5,
+              clause="profile location codes: 0 first node, 2 last node, 1 inside (arbitrary node, size >= 2)"),
+        Group(name="profile.build_count", units=common + [p_build_count],
+              harness=hp % ("pbc", "profile_build_neighbors_count(cnt, nondet_size_t(), bs)"),
+              entry="h_pbc", enforce="profile_build_neighbors_count", timeout=120, min_obligations=5,
+              clause="profile count table: per location code the number of admissible steps"),
+        Group(name="profile.count_impl", units=common + [p_count_impl],
+              harness=hp % ("pci", "size_t r = profile_neighbors_count_impl(nondet_size_t(), cgc, ccnt, nondet_size_t(), bs)"),
+              entry="h_pci", enforce="profile_neighbors_count_impl", timeout=120, min_obligations=5,
+              clause="profile neighbors_count_impl(idx) == number of admissible steps at idx (given the code and count tables)"),
+        Group(name="profile.indices", units=common + [p_indices],
+              harness=hp % ("pni", "profile_neighbors_indices_impl(nb, nondet_size_t(), nondet_size_t(), bs)"),
+              entry="h_pni", enforce="profile_neighbors_indices_impl", unwindset={("profile_neighbors_indices_impl", 0): 3},
+              timeout=300, min_obligations=10,
+              clause="profile neighbors_indices_impl: multiset of ((idx - 1) mod size, (idx + 1) mod size) over the admissible steps, wrapping "
+                     "only across looped ends; symbolic size in [2, 2^40]"),
+    ]
+
+
+def profile_symmetry_group():
+    def cnt(a, b):
+        return " + ".join("((PADM(%s, %d) && PTGT(%s, %d) == %s) ? 1 : 0)" % (a, d, a, d, b) for d in (-1, 1))
+    h = ND + PGEO + r"""
+void h_psym(void)
+{
+    size_t m_size = nondet_size_t(); struct pbs b_; const struct pbs *bs = &b_;
+    size_t a = nondet_size_t(), b = nondet_size_t();
+    __CPROVER_assume(2 <= m_size && m_size <= ((size_t) 1 << 40) && PBS_SYM(bs) && a < m_size && b < m_size);
+    __CPROVER_assert((%s) == (%s), "C07 symmetry of the profile neighbour relation (with multiplicities)");
+    __CPROVER_assert(0, "canary: postcondition point reachable");
+}
+""" % (cnt("a", "b"), cnt("b", "a"))
+    return Group(name="profile.symmetry", units=[st._PRE, st.pbs_is_hl], harness=h, entry="h_psym", timeout=120, min_obligations=1,
+                 clause="profile: the geometric neighbour relation is symmetric with multiplicities (spec-level lemma)")
+
+
 CONNS = ["queen", "rook", "bishop"]
-GROUPS = {"C07": [g for c in CONNS for g in [nno_group(c), count_group(c), symmetry_group(c)] + [coded_group(c, k) for k in range(9)]]}
+GROUPS = {"C07": [g for c in CONNS for g in [nno_group(c), count_group(c), symmetry_group(c), count_impl_group(c)] + [coded_group(c, k) for k in range(9)]]
+          + [indices_group(8), indices_group(4)] + ravel_groups() + profile_groups() + [profile_symmetry_group()]}
 PROPS = {"C07": dict(level="other", assumptions=[], undecided=[], unmechanised=[], explanation="")}
